@@ -49,6 +49,7 @@ structure DSt where
   allImpl : List String := []   -- app spec: every frame digest the implementation reported at delivery
   sendMtu : Nat := 0            -- sockS: MTU of the SENDING transport
   plainUdp : Bool := false      -- sockS: the sender is a plain UDP socket of the harness (`new udp`)
+  appo : Bool := false          -- application face opening its own connection
   lis : Bool := false           -- listener leg: blocks are Interests, frames = what reaches the forwarding thread
   blkQ : List Bytes := []       -- sockS: blocks defined and not yet handed to sendFrame
   sexpect : List (Nat × String) := []  -- sockS spec: blocks the sending transport must let through
@@ -122,6 +123,24 @@ def stepC11 (d : DSt) (op : String) (got : String) : StepResult DSt :=
   let crash : List SpecFail :=
     if isCrash got || (got.splitOn " ret=PANIC").length > 1 then [⟨"no-crash", "crash", s!"{op}: {got}"⟩] else []
   match op.splitOn " " with
+  | ["new", "appo"] =>
+    -- application face that opens its own connection (and is re-opened in mid-stream): the packets handed
+    -- to the engine are reported at eof
+    { st := { kind := .sock, appo := true }, expected := some "ok", cov := ["new-appo"] }
+  | ["reopen", t, n, sd] =>
+    -- the block reaches the engine; while its callback runs the application closes the face and opens
+    -- it again: the block counts, and the stream goes on over the new connection
+    if !d.appo then { st := d, expected := some "skip" } else
+    match d.dead, t.toNat?, n.toNat?, sd.toNat? with
+    | some r, _, _, _ => { st := d, expected := some s!"dead {r}", spec := crash }
+    | none, some t, some n, some sd =>
+      if !d.stream.isEmpty || !d.appPending.isEmpty then { st := d, expected := some "skip", spec := crash } else
+      let b := mkBlock t n sd
+      let hang : List SpecFail := if got.startsWith "hang" then [⟨"no-spin", "hang", s!"reopen: {got}"⟩] else []
+      { st := { d with sockAcc := d.sockAcc ++ [b], expect := d.expect ++ [(b.length, digest b)], credit := d.credit + b.length,
+                       specDead := d.specDead || got.startsWith "hang" },
+        expected := some "ok", spec := crash ++ hang, cov := ["reopen"], nontrivial := true }
+    | _, _, _, _ => { st := d, expected := some "bad-op" }
   | ["new", k] =>
     let kind := if k == "fw" then Kind.fw else if k == "app" then Kind.app
                 else if k == "appsend" then Kind.appS else Kind.none
